@@ -14,13 +14,14 @@ import core_lib as cl
 import c18 as trig
 
 PROPERTY = "C05"
-LEAN_MODULES = ["Proofs.C05", "Proofs.C05.Refresh", "Proofs.C05.Hooks"]
+LEAN_MODULES = ["Proofs.C05", "Proofs.C05.Refresh", "Proofs.C05.Hooks", "Proofs.C05.Finalize"]
 DRIVERS = ["driver_core"]
 RULE = ("random runs: 1..3 markets (minutely, hourly, hourly option book with 2..80 rows per timestamp — sometimes more rows than the longest market has "
         "minutes —, with gaps, starting late / ending early), bar interval 1/2/3/5/7/15/45/60 min (string forms "
         "'1min', 'min', '5min', '1h', 'h'), 1..400 bars, price frame covering / not covering the data, 0..3 time triggers, scripted strategy "
         "whose hooks (initialize / before_bar / trigger actions / open callbacks / on_bar / after_bar / notify) run statement lists: accepted and "
-        "refused operations (from inside notify() too: answers to delivered actions, up to three levels deep, also on the last bar), "
+        "refused operations (from inside notify() too: answers to delivered actions, up to three levels deep, also on the last bar; from finalize() "
+        "after the last bar, with answers from notify()), "
         "strategy.triggers.append of a new trigger / remove of an installed one (from trigger actions while the loop iterates the list, and "
         "between loops), raise of HookError / HookRuntimeError / DemeterError at a random place of a random hook on a random bar (first, last, "
         "middle), and markets whose update() records actions; after a run (failed or not) the same Actuator and strategy object run again; "
@@ -160,6 +161,16 @@ def gen_case(rng, big=False):
                 cnt[0] += 1
                 sc["upd"].append([r_, m, [f"u{cnt[0]}"] + ([f"u{cnt[0]}b"] if rng.random() < 0.3 else [])])
                 answers(r_, sc["upd"][-1][2])
+    if rng.random() < 0.3:
+        # finalize() trades too (close everything at the end): accepted and refused operations, answered from notify() when delivered
+        fo = ops()
+        if fo:
+            sc["fin"], sc["fin_notify"], sc["fin_fuel"] = fo, [], 100000
+            for x in fo:
+                if rng.random() < max(pn, 0.2):
+                    o2 = ops(2)
+                    if o2:
+                        sc["fin_notify"].append([x[2], o2])
     case = {"interval": interval, "istr": istr, "markets": markets, "prices": prices, "specs": specs, "script": sc, "rerun": rng.random() < 0.35}
     nbars_run = len(expected_index(max(markets, key=lambda m: len(m["times"]))["times"], step, resampled(istr)))
     if rng.random() < 0.3:
@@ -307,14 +318,15 @@ def run_impl(case):
     rec.initialized = False
     a, ms, rec = cl.build([(f"m{i}", m["times"], m["open"], m["kind"], m.get("rows", 1), m.get("sparse", False)) for i, m in enumerate(case["markets"])], case["prices"], case["istr"], rec)
     sc = case["script"]
-    t_before, t_on, t_after, t_fire, t_open, t_notify, upd_by_row = {}, {}, {}, {}, {}, {}, {}
+    t_before, t_on, t_after, t_fire, t_open, t_notify, upd_by_row, t_fin_notify = {}, {}, {}, {}, {}, {}, {}, {}
     cur_sc = {"sc": sc}
 
     def load(script):
         """(re)fill the tables the hooks read: the same strategy object can be run again with another script"""
         cur_sc["sc"] = script
-        for d in (t_before, t_on, t_after, t_fire, t_open, t_notify, upd_by_row):
+        for d in (t_before, t_on, t_after, t_fire, t_open, t_notify, upd_by_row, t_fin_notify):
             d.clear()
+        t_fin_notify.update({tag: o for tag, o in script.get("fin_notify", [])})
         t_before.update({r: o for r, o in script["before"]})
         t_on.update({r: o for r, o in script["on"]})
         t_after.update({r: o for r, o in script["after"]})
@@ -413,11 +425,13 @@ def run_impl(case):
 
         def notify(self, action):
             ev(["notify", now(), action.comment, cl.sec(action.timestamp), [m.market_info for m in ms].index(action.market)])
-            do_ops("notify", t_notify.get((state["row"], action.comment), []))
+            do_ops("notify", t_fin_notify.get(action.comment, []) if state.get("fin") else t_notify.get((state["row"], action.comment), []))
 
         def finalize(self):
             ev(["finalize", now()])
             left.extend(ident[id(t)] for t in self.triggers)      # still installed when the loop has ended
+            state["fin"] = True
+            do_ops("finalize", cur_sc["sc"].get("fin", []))
 
     a.strategy = S()
     left = []
@@ -435,6 +449,7 @@ def run_impl(case):
     def go(script):
         """one Actuator.run() with the given script; what it did and what it left behind"""
         load(script)
+        state["fin"] = False
         rec.events = []
         rec.initialized = False
         left.clear()
@@ -460,6 +475,7 @@ def run_impl(case):
         o = {"events": rec.events, "err": err, "exc": exc, "left": list(left), "saved": saved,
              "actions": [[x.comment, cl.sec(x.timestamp), [m.market_info for m in ms].index(x.market)] for x in a.actions],
              "status_ts": [cl.sec(s.timestamp) for s in a.account_status],
+             "undelivered": [[x.comment, cl.sec(x.timestamp), [m.market_info for m in ms].index(x.market)] for x in a._currents.actions],
              "installed_after": len(a.strategy.triggers)}
         if err is None:
             df = a.account_status_df
@@ -514,7 +530,7 @@ def strip_booms(script):
 
 
 # ------------------------------------------------------------------------------------------ the property, stated on the observed trace
-PHASE_OF_HOOK = {"init": 2, "before": 5, "fire": 6, "open": 7, "on": 9, "after": 13, "notify": 15}
+PHASE_OF_HOOK = {"init": 2, "before": 5, "fire": 6, "open": 7, "on": 9, "after": 13, "notify": 15, "finalize": 17}
 
 
 def phase(e):
@@ -564,7 +580,11 @@ def first_in_bin(times, ts, step, resample):
 
 def oracle(ctx, case, obs, rep):
     """C05 on the implementation's own trace.  Only for runs that ended normally."""
-    ev = [e for e in obs["events"]]
+    full = [e for e in obs["events"]]
+    # the loop ends with the finalize() call; what finalize() does and the deliveries after it are judged separately (`tail`)
+    kfin = next((i for i, e in enumerate(full) if e[0] == "finalize"), None)
+    ev = full if kfin is None else full[:kfin + 1]
+    tail = [] if kfin is None else full[kfin + 1:]
     step = 60 * case["interval"]
     resample = resampled(case["istr"])
     nm = len(case["markets"])
@@ -607,16 +627,31 @@ def oracle(ctx, case, obs, rep):
           f"that does not contain the strategy's own write")
     # every accepted operation / update record yields one action stamped with its bar, delivered exactly once at the end of that bar
     recorded = []
-    for e in ev:
+    for e in full:
         if e[0] == "ok" or (e[0] == "free" and e[5]):
             recorded.append([e[4], e[1], e[3]])
         elif e[0] == "uact":
             recorded.append([e[3], e[1], e[2]])
-    notified = [[e[2], e[3], e[4]] for e in ev if e[0] == "notify"]
+    notified = [[e[2], e[3], e[4]] for e in full if e[0] == "notify"]
     if notified != recorded:
         lost = [x for x in recorded if x not in notified]
-        V("Actuator.notify:not-exactly-once", f"notified actions {notified[:5]}… differ from recorded ones {recorded[:5]}… (never delivered: {lost[:4]})")
-    late = [e for e in ev if e[0] == "notify" and e[1] != e[3]]
+        from_fin = [x for x in lost if any(t[0] in ("ok", "free") and t[2] == "finalize" and t[4] == x[0] for t in tail)]
+        if from_fin and notified == recorded[:len(notified)] and all(x in from_fin or any(t[2] == "notify" and t[4] == x[0] for t in tail if t[0] in ("ok", "free")) for x in lost):
+            V("Actuator.notify:finalize-operation-never-delivered", f"operations accepted from finalize() are in Actuator.actions but were never handed to notify(): {from_fin[:4]} "
+              f"(left in _currents.actions: {obs.get('undelivered', [])[:4]})")
+        else:
+            V("Actuator.notify:not-exactly-once", f"notified actions {notified[:5]}… differ from recorded ones {recorded[:5]}… (never delivered: {lost[:4]})")
+    if obs.get("undelivered"):
+        V("Actuator._currents.actions:left-after-run", f"records left undelivered in _currents.actions after the run: {obs['undelivered'][:4]}")
+    # what finalize() does happens after the last bar: stamped with it (the clock still shows it), only operation outcomes and deliveries follow the call
+    for e in tail:
+        if not ((e[0] in ("ok", "rej", "free") and e[2] in ("finalize", "notify")) or e[0] == "notify"):
+            V("Actuator.run:call-after-finalize", f"{e} follows finalize()")
+            break
+        if e[1] != bars[-1] or (e[0] == "notify" and e[3] != bars[-1]):
+            V("Actuator.run:finalize-operation-stamp", f"{e} after finalize() is not stamped with the last bar {bars[-1]}")
+            break
+    late = [e for e in full if e[0] == "notify" and e[1] != e[3]]
     if late:
         src = [x for x in ev if x[0] in ("ok", "free") and x[4] == late[0][2]]
         V("Actuator.notify:late", f"the action {late[0][2]} stamped {late[0][3]} (issued from {src[0][2] if src else 'update()'}) was delivered to notify() in the bar "
@@ -646,7 +681,7 @@ def oracle(ctx, case, obs, rep):
         elif e[0] == "open" and not openf.get((e[1], e[2])):
             V("Actuator.run:open-callback-on-closed-market", f"{e}")
     if ev[-1][0] != "finalize":
-        V("Actuator.run:finalize", "finalize() is not the last call")
+        V("Actuator.run:finalize", "finalize() is not called after the last bar")
     if obs.get("rerun") is not None:
         V("Actuator.run:second-run-differs", f"the same Actuator and strategy run a second time on the same data: first difference (index, second run, first run) "
                                              f"{str(obs['rerun'])[:300]}")
@@ -785,6 +820,8 @@ def compare(ctx, rep, obs, ans):
         return
     if ans["actions"] != obs["actions"]:
         ctx.disagree(f"action lists differ (outcome {obs['err']})", rep)
+    if "undelivered" in ans and ans["undelivered"] != obs.get("undelivered"):
+        ctx.disagree(f"_currents.actions after the run: impl {obs.get('undelivered')} model {ans['undelivered']}", rep)
     if [r[0] for r in ans["rows"]] != obs["status_ts"] or [r[1] for r in ans["rows"]] != [e[2] for e in it if e[0] == "row"]:
         ctx.disagree(f"account rows differ (outcome {obs['err']})", rep)
     if obs["err"] is None:
@@ -872,6 +909,11 @@ def fixed_cases():
                 "script": dict(empty, on=[[2, [[0, True, "t1", True]]], [5, [[1, True, "t4", False]]]], upd=[[3, 1, ["u1"]]],
                                notify=[[2, "t1", [[1, True, "t2", True], [0, False, "t2x", True]]], [2, "t2", [[0, True, "t3", False]]],
                                        [5, "t4", [[0, True, "t5", True]]], [3, "u1", [[1, True, "t6", True]]]])})
+    # finalize() trades: an accepted, a refused and an ungated operation after the last bar; notify() answers the delivery of the first
+    ms = [{"kind": "minutely", "times": short, "open": False}, {"kind": "minutely", "times": short[:3], "open": False}]
+    out.append({"interval": 1, "istr": "1min", "markets": ms, "prices": short, "specs": [], "rerun": True,
+                "script": dict(empty, on=[[1, [[0, True, "o1", True]]]], fin=[[0, True, "fin1", True], [0, False, "fin2", True], [1, True, "fin3", True], [1, True, "fin4", False]],
+                               fin_notify=[["fin1", [[0, True, "fin5", True]]]], fin_fuel=1000)})
     # a hook raises: every hook, on the first bar / in the middle / on the last bar, every class; afterwards the same Actuator runs again
     import copy
     whole = {"k": "range", "kw": "{}", "s": short[0], "e": short[-1] + 60}
